@@ -50,10 +50,13 @@ pub fn case(seed: u64, with_tags: bool, roundtrip: bool, check_tags: bool) -> Op
         18 => { md.char_ngram_model.0.clear(); md.type_ngram_model.0.clear(); }
         _ => {}
     }
+    // every 7th seed the predictor is built with the OTHER tag-prediction flag: tag models present but tagging off
+    // (boundaries as usual, no tags at all), or tagging on without any tag model (likewise no tags)
+    let predict_tags = if seed % 7 == 3 { !with_tags } else { with_tags };
     for t in 0..8 {
         // six random texts, then two assembled from the model's own strings
         let text = if t < 6 { gen_text(&mut r, 12) } else { gen_text_from_model(&mut r, &md, 14) };
-        let got = catch_unwind(AssertUnwindSafe(|| run_real(&md, &text, with_tags, roundtrip)));
+        let got = catch_unwind(AssertUnwindSafe(|| run_real(&md, &text, predict_tags, roundtrip)));
         let got = match got {
             Err(_) => return Some(format!("panic on text #{t} {:?}", text)),
             Ok(Err(e)) => return Some(format!("{e} (text #{t} {:?})", text)),
@@ -71,7 +74,11 @@ pub fn case(seed: u64, with_tags: bool, roundtrip: bool, check_tags: bool) -> Op
                 return Some(format!("boundary {i} of text #{t} {:?}: score {} but label {}", text, want[i], l));
             }
         }
-        if with_tags && check_tags {
+        if !(predict_tags && with_tags) {
+            if got.n_tags != 0 || !got.tags.is_empty() {
+                return Some(format!("tags on text #{t} {:?} although {}: n_tags {} {:?}", text, if predict_tags { "the model has no tag model" } else { "tag prediction is off" }, got.n_tags, got.tags));
+            }
+        } else if check_tags {
             let (n_tags, tags) = reference_tags(&md, &text, &wb);
             if n_tags != 0 && (got.n_tags != n_tags || got.tags != tags) {
                 return Some(format!("tags differ on text #{t} {:?}: expected n_tags {} {:?} actual n_tags {} {:?}", text, n_tags, tags, got.n_tags, got.tags));
